@@ -157,6 +157,8 @@ def run(ctx: core.Ctx):
                 ctx.case(("grp", xg.tobytes(), dt, cs, ce))
                 ctx.count("grouped")
                 check_pixel(ctx, "gammastd_grp", xg, out, nd, dict(kinds=[k1, k2], x=[float(v) for v in xg], dtype=dt, cal=cal.tolist()), groups=groups)
+        from .. import accessor_args
+        accessor_args.nodata_precedence(ctx, ["spi", "spi_grp"])
         # accessor: cubes of every integer width; an observation beyond the int16 range (rainfall in 1/100 mm, an extreme outlier) is a wet
         # observation like any other: it gets the largest index of its pixel, it never wraps to nodata or to a small value
         import pandas as pd
